@@ -10,7 +10,7 @@ import numpy as np
 
 from sim import filgen
 from sim import transforms as T
-from sim.core import Rejected, SimCrash, SimLivelock, Violation
+from sim.core import open_reader, Rejected, SimCrash, SimLivelock, Violation
 from sim.disk import SimDisk
 
 from .c07 import warm as _warm07
@@ -236,7 +236,7 @@ def execute(sc, ctx) -> None:
         sim.write_hook = hook
         sim.fine_grained = True
         sim.begin_op(0, budget=100000)
-        reader = FilReader(fs.paths)
+        reader = open_reader("C20", fs.paths)
         try:
             outs = invoke(name, reader, gold_dir, sc)
         except SimLivelock as e:
